@@ -3,6 +3,7 @@ import TinsModel.Follower.LemmasStep
 import TinsModel.Follower.LemmasSim
 import TinsModel.Follower.LemmasRoute
 import TinsModel.Follower.LemmasDeliver
+import TinsModel.Follower.LemmasLimit
 /- Property C07 — stream follower tracks connections, directions and lifetimes: the property theorems.
    Model: TinsModel/Follower/Model.lean (code-shaped, generic in the connection key; the code is `keyOf = identOf`).
    Reference: TinsModel/Follower/Spec.lean (`refKeyOf` = family + unordered endpoint pair). -/
@@ -71,13 +72,16 @@ example : CrossFamilyTwin syn4 syn6 := by decide
 
 /-! ## 2. bounded memory per connection -/
 
-/-- At every step boundary of every capture, every live connection is within both buffering limits
+/-- At every step boundary of every capture, every live connection is within the three limits
     (`chunks` = entries of both flows' `buffered_payload_`, `bytes` = the `uint32_t` sum of both flows'
-    `total_buffered_bytes_`, exactly the quantities `StreamFollower::process_packet` tests).  Holds for every key
-    function, in particular for the code (`identOf`) and the reference (`refKeyOf`).
-    That the byte counter equals the bytes really held is C06's invariant (checked here by the oracle at run time). -/
+    `total_buffered_bytes_`, `sacked` = the `uint32_t` sum of both ACK trackers' `acked_intervals().iterative_size()`,
+    exactly the quantities `StreamFollower::process_packet` tests).  Holds for every configuration (ACK tracking on or
+    off per flow, any limits) and every key function, in particular for the code (`identOf`) and the reference
+    (`refKeyOf`).  That the byte counter equals the bytes really held is C06's invariant (checked here by the oracle at
+    run time); that the intervals are the maximal runs of SACKed positions is C19's theorem about the imported tracker. -/
 theorem memory_bound {κ : Type} [DecidableEq κ] (cfg : Cfg) (keyOf : Pkt → κ) (lt : κ → κ → Bool) (h : List Pkt) :
-    ∀ e ∈ (run cfg keyOf lt Follower.empty h).1.streams, e.2.chunks ≤ cfg.maxChunks ∧ e.2.bytes ≤ cfg.maxBytes :=
+    ∀ e ∈ (run cfg keyOf lt Follower.empty h).1.streams,
+      e.2.chunks ≤ cfg.maxChunks ∧ e.2.bytes ≤ cfg.maxBytes ∧ e.2.sacked ≤ cfg.maxSacked :=
   run_within cfg keyOf lt h Follower.empty (by intro e he; cases he)
 
 /-! ## 3. the follower refines the reference connection table -/
@@ -91,7 +95,7 @@ def trace_refines_reference : Prop :=
   ∀ (cfg : Cfg) (h : List Pkt), (∀ p ∈ h, WellFormed p) →
     (Model.run cfg Follower.empty h).2 = (Ref.run cfg Follower.empty h).2.map (List.map (Ev.mapKey RefKey.ident))
 
-def cfg0 : Cfg := ⟨false, 512, 3145728, 300000000, true⟩
+def cfg0 : Cfg := { attach := false, maxChunks := 512, maxBytes := 3145728, keepAlive := 300000000, acl := true }
 
 /-- KF-C07-1 witness, replayed on the real code by the check: SYN of an IPv4 connection, then SYN of the IPv6
     connection `a.b.c.d::` with the same ports — the reference announces both, the follower only the first. -/
@@ -165,7 +169,7 @@ theorem announce_iff (cfg : Cfg) (keyOf : Pkt → κ) (lt : κ → κ → Bool) 
       · cases x <;> simp [liftEv, Ev.isNew] at hc
       · simp [Ev.isNew] at hc
       · simp [Ev.isNew] at hc
-    · obtain ⟨_, _, _, _, rfl⟩ := sweep_events_timeout cfg lt _ _ e he
+    · obtain ⟨_, _, _, _, _, rfl⟩ := sweep_events_timeout cfg lt _ _ e he
       simp [Ev.isNew] at hc
   · rintro ⟨rfl, hf, hs⟩
     have ha : announces cfg keyOf F p = true := by unfold announces; simp [hf, hs]
@@ -202,7 +206,8 @@ theorem forget_iff (cfg : Cfg) (keyOf : Pkt → κ) (lt : κ → κ → Bool) (F
     closed ⟺ the packet's own connection is finished after the packet;
     terminated(BUFFERED_DATA) ⟺ the packet's own connection is over a buffering limit after the packet;
     terminated(TIMEOUT) ⟺ the sweep is due and the connection, as the packet left it, was last seen a keep-alive ago;
-    terminated(SACKED_SEGMENTS) never (ACK tracking off). -/
+    terminated(SACKED_SEGMENTS) ⟺ the packet's own connection is within both buffering limits after the packet and its two
+    ACK trackers together hold more than `maxSacked` intervals. -/
 theorem forget_reason (cfg : Cfg) (keyOf : Pkt → κ) (lt : κ → κ → Bool) (F : Follower κ) (p : Pkt) (k : κ)
     (hu : UniqueKeys F.streams) :
     ((∃ e ∈ (step cfg keyOf lt F p).2, Ev.isClosed k e = true) ↔
@@ -213,11 +218,43 @@ theorem forget_reason (cfg : Cfg) (keyOf : Pkt → κ) (lt : κ → κ → Bool)
     ((∃ e ∈ (step cfg keyOf lt F p).2, Ev.isTerm k .timeout e = true) ↔
         (sweepDue cfg (stepCore cfg keyOf F p).1 p.ts ∧
           ∃ s, find? (stepCore cfg keyOf F p).1.streams k = some s ∧ s.lastSeen + cfg.keepAlive ≤ p.ts)) ∧
-    (∀ e ∈ (step cfg keyOf lt F p).2, Ev.isTerm k .sackedSegments e = false) := by
-  refine ⟨closed_iff cfg keyOf lt F p k, ?_, term_timeout_iff cfg keyOf lt F p k hu, no_sacked cfg keyOf lt F p k⟩
+    ((∃ e ∈ (step cfg keyOf lt F p).2, Ev.isTerm k .sackedSegments e = true) ↔
+        (k = keyOf p ∧ ∃ s, target cfg keyOf F p = some s ∧
+          (after s p).chunks ≤ cfg.maxChunks ∧ (after s p).bytes ≤ cfg.maxBytes ∧ (after s p).sacked > cfg.maxSacked)) := by
+  refine ⟨closed_iff cfg keyOf lt F p k, ?_, term_timeout_iff cfg keyOf lt F p k hu, ?_⟩
+  rotate_left
+  · have := term_sacked_iff cfg keyOf lt F p k
+    unfold overLimit at this
+    simp only [Bool.or_eq_false_iff, decide_eq_false_iff_not, Nat.not_lt] at this
+    simpa only [and_assoc] using this
   have := term_buffered_iff cfg keyOf lt F p k
   unfold overLimit at this
   simpa only [Bool.or_eq_true, decide_eq_true_eq] using this
+
+/-- **sacked_limit.**  The third limit of `StreamFollower::process_packet`, for every configuration and every state with
+    unique keys (every reachable state, `reachable_unique`):
+    (1) SACKED_SEGMENTS is reported for `k` in a step exactly when `k` is the packet's connection and, after the packet,
+        is within both buffering limits while its ACK trackers hold more than `maxSacked` intervals (the count is the
+        `uint32_t` sum of both flows' interval counts);
+    (2) the connection is then forgotten in that very step (`find_stream` fails afterwards);
+    (3) no step reports a connection terminated twice — limits check and idle sweep together make at most one
+        termination callback per connection, so with `announce_once` (no callback for a connection that is not live)
+        crossing the limit is reported exactly once per lifetime.
+    That every connection still live at a step boundary holds at most `maxSacked` intervals is `memory_bound`. -/
+theorem sacked_limit (cfg : Cfg) (keyOf : Pkt → κ) (lt : κ → κ → Bool) (F : Follower κ) (p : Pkt) (k : κ)
+    (hu : UniqueKeys F.streams) :
+    ((∃ e ∈ (step cfg keyOf lt F p).2, Ev.isTerm k .sackedSegments e = true) ↔
+        (k = keyOf p ∧ ∃ s, target cfg keyOf F p = some s ∧
+          (after s p).chunks ≤ cfg.maxChunks ∧ (after s p).bytes ≤ cfg.maxBytes ∧ (after s p).sacked > cfg.maxSacked)) ∧
+    ((∃ e ∈ (step cfg keyOf lt F p).2, Ev.isTerm k .sackedSegments e = true) →
+        find? (step cfg keyOf lt F p).1.streams k = none) ∧
+    (step cfg keyOf lt F p).2.countP (Ev.isTermOf k) ≤ 1 := by
+  refine ⟨(forget_reason cfg keyOf lt F p k hu).2.2.2, ?_, step_term_count cfg keyOf lt F p k hu⟩
+  rintro ⟨e, he, ht⟩
+  have hend : ∃ e ∈ (step cfg keyOf lt F p).2, e.isEnd k = true := by
+    refine ⟨e, he, ?_⟩
+    cases e <;> simp_all [Ev.isTerm, Ev.isEnd]
+  exact ((forget_iff cfg keyOf lt F p k hu).1.2 ((forget_iff cfg keyOf lt F p k hu).2.1 hend)).2
 
 end generic
 
@@ -291,13 +328,13 @@ example :
 /-- The payload of an initial SYN segment (TCP Fast Open) is handed to the application whole — one client-data callback
     carrying exactly the payload — by the stream the SYN creates; afterwards the client direction expects the byte after
     it (`isn + 1 + |d|`) and nothing is buffered.  (Before the fix the first byte was dropped and the direction stalled.) -/
-theorem syn_payload_delivered (acl : Bool) (p : Pkt) (d : Bytes)
+theorem syn_payload_delivered (cfg : Cfg) (p : Pkt) (d : Bytes) (hi : cfg.ignC = false)
     (hs : p.syn = true) (hr : p.rst = false) (hf : p.fin = false) (hp : p.payload = some d)
     (h0 : 0 < d.length) (hn : d.length < 2147483648) :
-    (Stream.route { (Stream.ofPacket p acl) with lastSeen := p.ts } p).2 = [SEv.data true d] ∧
-    (Stream.route { (Stream.ofPacket p acl) with lastSeen := p.ts } p).1.client.tr.seq = wrap32 (wrap32 (p.seq + 1) + d.length) ∧
-    (Stream.route { (Stream.ofPacket p acl) with lastSeen := p.ts } p).1.client.tr.buf = [] :=
-  Tins.SF.syn_payload_delivered acl p d hs hr hf hp h0 hn
+    (Stream.route { (Stream.ofPacket cfg p) with lastSeen := p.ts } p).2 = [SEv.data true d] ∧
+    (Stream.route { (Stream.ofPacket cfg p) with lastSeen := p.ts } p).1.client.tr.seq = wrap32 (wrap32 (p.seq + 1) + d.length) ∧
+    (Stream.route { (Stream.ofPacket cfg p) with lastSeen := p.ts } p).1.client.tr.buf = [] :=
+  Tins.SF.syn_payload_delivered cfg p d hi hs hr hf hp h0 hn
 
 example : ({ syn4 with payload := some [1, 2, 3] } : Pkt).syn = true ∧ ({ syn4 with payload := some [1, 2, 3] } : Pkt).rst = false := by decide
 
@@ -319,6 +356,24 @@ example : EndsNow cfg0 identOf (Model.run cfg0 Follower.empty [syn4]).1 late6 (i
 example : (Model.run cfg0 Follower.empty [syn4, late6]).1.streams.length = 1 ∧
     (Model.run cfg0 Follower.empty [syn4, late6]).2.flatten.length = 3 := by
   decide
+
+/-! non-vacuity of `sacked_limit`: ACK tracking on for both flows, limit lowered to one interval; after the handshake a
+    client segment carrying two SACK blocks above the cumulative ACK makes the limits check report SACKED_SEGMENTS, once,
+    and the connection is forgotten; with one block it stays live, within the limit -/
+
+def cfgS : Cfg := { cfg0 with maxSacked := 1, ackC := true, ackS := true }
+def synack4 : Pkt := { syn4 with src := syn4.dst, dst := syn4.src, sport := 80, dport := 1234, flags := 18, seq := 500, ack := 101, ts := 1001 }
+def ack4 : Pkt := { syn4 with flags := 16, seq := 101, ack := 501, ts := 1002 }
+def sack4 (edges : List Nat) : Pkt := { ack4 with ts := 1003, sack := .edges edges }
+
+example :
+    let r := Model.run cfgS Follower.empty [syn4, synack4, ack4, sack4 [510, 520, 530, 540]]
+    r.2.flatten.countP (Ev.isTerm (identOf syn4) .sackedSegments) = 1 ∧ r.2.flatten.countP (Ev.isTermOf (identOf syn4)) = 1 ∧
+    r.1.streams.length = 0 := by decide
+
+example :
+    let r := Model.run cfgS Follower.empty [syn4, synack4, ack4, sack4 [510, 520]]
+    r.2.flatten.countP (Ev.isTermOf (identOf syn4)) = 0 ∧ (r.1.streams.map (fun e => e.2.sacked)) = [1] := by decide
 
 /-! ## 8. refinement with collisions excluded only among live connections -/
 
